@@ -637,6 +637,19 @@ Proof.
   - apply K_untrack in H'. destruct H' as [H' _]. now apply K_untrack in H'.
 Qed.
 
+Lemma write_value_none_spec U B x names :
+  spec (write_value_none t le false x names) (fun s => K U B s /\ x < s_next s) (fun _ s => K U B s) (K U B).
+Proof.
+  intros s (HK & Hx). unfold write_value_none. rewrite mbind_run.
+  pose proof (read_chain_spec U B x names s (conj HK Hx)) as H. step_with H; [|exact H].
+  destruct H as (H1 & H2 & H3). rewrite mbind_run.
+  pose proof (proxy_element_spec U B (fst r) (snd r) s0 (conj H1 H3)) as H.
+  step_with H; [|exact H]. destruct H as (H4 & _ & H6). rewrite mbind_run.
+  pose proof (to_traversal_spec t U B FUEL r0 s1 (conj H4 H6)) as H. step_with H; [|exact H].
+  cbn [mbind node_of]. destruct (n_cls (getn s2 r0)); try exact H.
+  now apply (set_val_spec U B r0 [] [] s2).
+Qed.
+
 (* ---------- deletion ---------- *)
 
 Lemma remove_child_K U B p c : spec (remove_child p c) (K U B) (fun _ s => K U B s) (K U B).
@@ -696,6 +709,15 @@ Qed.
 Lemma del_child_spec U B x name : spec (del_child t x name) (K U B) (fun _ s => K U B s) (K U B).
 Proof.
   intros s HK. unfold del_child, child_at_index. rewrite !mbind_run. cbn [node_of lift]. rewrite !mbind_run. cbn [lift].
+  destruct (fcr t (getn s x) (upper name)) as [[cn cr]|ex]; [|exact HK].
+  destruct (streqb cn name); cbn [ret].
+  - destruct (finder _ _ _) as [c|]; [now apply (remove_child_K U B x c s)|exact HK].
+  - destruct (finder _ _ _) as [c|]; [now apply (remove_child_K U B x c s)|exact HK].
+Qed.
+
+Lemma remove_by_name_spec U B x name i : spec (remove_by_name t x name i) (K U B) (fun _ s => K U B s) (K U B).
+Proof.
+  intros s HK. unfold remove_by_name, child_at_index. rewrite !mbind_run. cbn [node_of lift]. rewrite !mbind_run. cbn [lift].
   destruct (fcr t (getn s x) (upper name)) as [[cn cr]|ex]; [|exact HK].
   destruct (streqb cn name); cbn [ret].
   - destruct (finder _ _ _) as [c|]; [now apply (remove_child_K U B x c s)|exact HK].
